@@ -295,6 +295,12 @@ def r05e(ctx):
     ifft = [c_ for c_ in ast.walk(ff) if is_call(c_, func="scipy.fft.ifft")]
     ok = ok and len(ifft) == 1 and {u(ifft[0].args[0].left), u(ifft[0].args[0].right)} == {"responses", "spectrum"}
     ctx.check(ok, "R05e", f"{SIG}.filter_frequencies", "values := real(ifft(responses*spectrum)[:len(times)])", "", key_detail="signal filter shape")
+    # every normal exit of Signal.filter_frequencies has applied the filter: no shortcut that leaves some signals unfiltered (linearity in the signal)
+    from ..core import paths
+    cnt = paths.seq(strip_doc(ff), lambda n: isinstance(n, ast.Assign) and u(n.targets[0]) == "self.values")
+    normal = [v for k, v in cnt.items() if k in ("fall", "return")]
+    ctx.check(bool(normal) and all(v[0] >= 1 for v in normal), "R05e", f"{SIG}.filter_frequencies", "every normal path stores the filtered values (no early exit that skips the filter)", str(cnt),
+              key_detail="filter always applied", loc=ctx.loc("pyrex.signals", ff))
 
 
 def run(ctx):
@@ -307,6 +313,8 @@ def run(ctx):
 
 SELFTEST = {
     "faults": [
+        {"name": "faint signals skip the filter", "file": "pyrex/signals.py", "old": "        freqs = scipy.fft.fftfreq(n=2*len(self.values), d=self.dt)\n",
+         "new": "        if np.allclose(self.values, 0):\n            return\n        freqs = scipy.fft.fftfreq(n=2*len(self.values), d=self.dt)\n", "rule": "R05e"},
         {"name": "np.asarray instead of a copy before the in-place mirror", "file": "pyrex/signals.py", "old": "            responses = np.array(function(freqs), dtype=np.complex128)",
          "new": "            responses = np.asarray(function(freqs), dtype=np.complex128)", "rule": "R05d"},
         {"name": "real inverse transform one bin short", "file": "pyrex/signals.py", "old": "        filtered_vals = scipy.fft.ifft(responses*spectrum)\n        self.values = np.real(filtered_vals[:len(self.times)])",
